@@ -21,11 +21,22 @@ CHECK = {
          'per key, then reads at quiescence, Commit, Write and a read of the database; the store is handed to diffdb behind a latency-only wrapper that parks the '
          'Get/Has/Set/Del which reads a stored key from the database inside that read (0/50/200/500 us or until a write of that key returns) while the other '
          'goroutines turn their next call into a Set/Del/Get of that key. '
+         '(h) the three sync RPC handlers under the request sizes real peers send: a real Chain of 220/260/320 blocks (0-6 transactions each) behind a block cache of '
+         '4/8/16 (almost every block named by a request is read from the database), 2-6 callers invoking getLastBlock / getHighestCommonBlock / getBlocksFromId '
+         'through the handler functions, each call in a goroutine of its own with a recording ResponseWriter (30-90 calls per caller, thorough 40-200), ID lists of '
+         '1-300 IDs (size classes <=10 = block sync, 11-50, 51-205 = fast sync up to 103 validators, >205; all known, all unknown, unknown fork on top of a known part, '
+         'duplicates, IDs of blocks being added/removed right now; descending / ascending / shuffled heights; last-n, gapped or random heights), getBlocksFromId from '
+         'deep stable blocks (103 uncached blocks), blocks below the tip, blocks of the churn zone and unknown IDs, next to 1-3 bulk readers (GetBlocksBetweenHeight, '
+         'GetBlockHeadersByHeights, GetBlockHeaders, GetTransactions over the whole chain, >= 64 or a few items, up to 300 IDs) and one writer adding/removing blocks at '
+         'the tip (bursts 1-12 deep, tip <= 20 above the stable part) for as long as they run; plus, in every tier, the fixed fast-sync scenario: one request of 41 IDs '
+         '(5 unknown + 36 known) and one of 205 known IDs alone, then four peers at once sending both 8 times each next to getBlocksFromId/getLastBlock calls, a reader of '
+         'the whole chain and the tip writer. '
          'GOMAXPROCS 2/4/8/16 and yield injection (Gosched / microsecond sleeps) are drawn per goroutine. Non-trivial = (a) >= 4 readers, >= 200 writer '
          'operations and >= 1000 bulk lookups in one run; (b)/(d) >= 4 goroutines and >= 2000 operations; (c) >= 4 goroutines, >= 500 deliveries and '
          '>= 4 unsubscribes; (e) at least one sync converged; (g) >= 3 goroutines, >= 1000 calls and >= 10 stored keys whose first Get/Has (called before any call on that key '
          'had returned, so it can be the one that reads the store) overlapped a Set/Del of the key by another goroutine; (f) >= 4 readers, >= 100 writer operations, >= 1000 tip observations and >= 20 tip reads '
-         'taken while the writer was inside AddBlock/RemoveBlock. Distinct by digest of the workload.',
+         'taken while the writer was inside AddBlock/RemoveBlock; (h) run completed, >= 100 handler calls, >= 10 getHighestCommonBlock requests with more than 10 IDs known during the whole call and >= 1 with more than 50, '
+         '>= 50 writer operations meanwhile and >= 10 range reads over >= 64 uncached blocks (bulk reader or served segment). Distinct by digest of the workload.',
  'level_text': 'Race detector plus timing-robust functional oracles on generated concurrent workloads against the real objects: no race report touching '
                'pkg/; every tip a reader obtains is byte-identical to a block the writer built (ID = hash of header, payload matches root) and is committed: '
                'unless the writer had begun to remove that very block before the lookups ended, its transactions, events, height index entry, persisted '
@@ -37,8 +48,16 @@ CHECK = {
                'a Range/Iterate returned, every key of the request it proved absent, the reads at quiescence and the database after Commit) form a linearizable history of '
                'one register starting from the stored content (exact Wing-Gong/Lowe search per key; reported first as stale-read when every possible source of a read '
                'had been overwritten by a write that returned before the read was called = lost staged write / revived delete), a single writer reads its own latest '
-               'write and commits its last one, and the diff of Commit reverted on the committed content gives the content before the round; a hang is '
-               'reported only with a goroutine dump proving a lock cycle.',
+               'write and commits its last one, and the diff of Commit reverted on the committed content gives the content before the round; '
+               'sync RPC handlers (writer and callers stamp every AddBlock/RemoveBlock and every request before the call and after the return on one atomic counter, IDs are '
+               'never reused): every handler call returns; getHighestCommonBlock answers one of the requested IDs, a block that was on the chain at some moment of the call and '
+               'at least as high as every requested block that was there during the whole call (empty answer only if none was); getBlocksFromId refuses IDs nobody built, '
+               'serves consecutive heights right above the requested block, at most 103, at least as many as always exist, stable blocks byte-identical, an error only when '
+               'the segment can reach the churn zone; getLastBlock answers a complete block of the writer that was on the chain during the call; no goroutine is left parked '
+               'inside handler code after the workload. A hang is reported only with goroutine dumps as positive evidence: a proven lock cycle, goroutines parked on a lock or '
+               'channel send in engine code (recognised by function name or, for closures of inlined engine functions, by source file) in two dumps while no worker moved, or - per '
+               'handler call outstanding for 10 s - the handler goroutine and every goroutine it created parked on a channel / WaitGroup in the handler\'s own code, identical in '
+               'three dumps 3 s apart.',
  'level_note': 'The seed fixes the workload (goroutine counts, operation mix, sizes, yield injection), not the Go scheduler: a race or lock cycle is found '
                'only if the run happens to execute it, and a found one may not reproduce from its seed (the report text / goroutine dump is the '
                'reproduction). Wall-clock budget hits are recorded as inconclusive. While findings are listed as known their triggers are removed from '
@@ -56,12 +75,14 @@ CHECK = {
            {'pkg': 'c20', 'race': True, 'run': 'TestTipIsCommitted', 'checks': 6, 'timeout': 1500, 'shrinktime': '15s', 'gomaxprocs': 4},
            {'pkg': 'c20', 'race': True, 'run': 'TestCertificatePool|TestEventEmitter|TestStagedStoreViews', 'checks': 10, 'timeout': 1500, 'shrinktime': '15s', 'gomaxprocs': 4},
            {'pkg': 'c20', 'race': True, 'run': 'TestStagedStoreLinearizable', 'checks': 12, 'timeout': 1500, 'shrinktime': '15s', 'gomaxprocs': 4},
+           {'pkg': 'c20', 'race': True, 'run': 'TestSyncHandlersUnderLoad', 'checks': 3, 'timeout': 1500, 'shrinktime': '15s', 'gomaxprocs': 4},
            {'pkg': 'c20', 'race': True, 'run': 'TestRegress', 'timeout': 1500, 'gomaxprocs': 4}],
  'thorough': [{'pkg': 'c20', 'race': True, 'run': 'TestChainReadersWriter', 'checks': 30, 'shards': 4, 'timeout': 3000, 'shrinktime': '30s', 'gomaxprocs': 2},
               {'pkg': 'c20', 'race': True, 'run': 'TestTipIsCommitted', 'checks': 40, 'shards': 2, 'timeout': 3000, 'shrinktime': '30s', 'gomaxprocs': 2},
               {'pkg': 'c20', 'race': True, 'run': 'TestCertificatePool|TestEventEmitter|TestStagedStoreViews', 'checks': 25, 'shards': 2, 'timeout': 3000, 'shrinktime': '30s', 'gomaxprocs': 2},
               {'pkg': 'c20', 'race': True, 'run': 'TestStagedStoreLinearizable', 'checks': 60, 'shards': 2, 'timeout': 3000, 'shrinktime': '30s', 'gomaxprocs': 2},
               {'pkg': 'c20', 'race': True, 'run': 'TestBlockSyncPolling', 'checks': 12, 'shards': 2, 'timeout': 3000, 'shrinktime': '30s', 'gomaxprocs': 2},
+              {'pkg': 'c20', 'race': True, 'run': 'TestSyncHandlersUnderLoad', 'checks': 25, 'shards': 2, 'timeout': 3000, 'shrinktime': '30s', 'gomaxprocs': 2},
               {'pkg': 'c20', 'race': True, 'run': 'TestRegress', 'timeout': 1500, 'gomaxprocs': 2}],
  'replay': [{'pkg': 'c20', 'race': True, 'run': 'TestReplayWorkload', 'timeout': 1500}],
 }
